@@ -33,7 +33,10 @@ def vec_paths(tu, fname, strings, is_env, args):
 
     def setup():
         st2.clear()
-        W.seed_globals(it, tu, st2, std_table(0), argv=([] if is_env else strs), envp=(strs if is_env else []))
+        # wasiInit(argc, argv, envp) is given a count for the arguments: the array may go on after argv[argc-1] (a host that hands the
+        # guest only the words before a separator), so the entries behind the count are not part of the vector; envp ends at its NULL
+        W.seed_globals(it, tu, st2, std_table(0), argv=([] if is_env else strs), envp=(strs if is_env else []),
+                       argv_tail=('<host word behind argc>', '<another>', 0))
         return (fname, args, {})
     return strs, it.explore(setup)
 
@@ -138,7 +141,8 @@ def concrete_vector(tu, fname, is_env, n):
 
     def setup():
         st2.clear()
-        W.seed_globals(it, tu, st2, std_table(0), argv=([] if is_env else strs), envp=(strs if is_env else []))
+        W.seed_globals(it, tu, st2, std_table(0), argv=([] if is_env else strs), envp=(strs if is_env else []),
+                       argv_tail=('<host word behind argc>', 0))
         st2['memcell']['v']['data'] = Ptr(data, 0)
         return (fname, [unk('instance'), PTRS, BUF], {})
     try:
